@@ -49,6 +49,7 @@ type Prog struct {
 	Calls  []Call `json:"calls"`
 	Depth  int    `json:"depth"`  // recursion depth exercised
 	Locals int    `json:"locals"` // extra locals per frame of the constant-passing recursion
+	Keep   []int  `json:"keep,omitempty"` // retained variadic slices: argument count of each call (the callee kind rotates)
 }
 
 // value returns a Go expression of the given type. untyped constants and nil are used where Go converts them.
@@ -97,6 +98,10 @@ func show(t, name string) []string {
 		return []string{"callOrNil(" + name + ")"}
 	case "I":
 		return []string{name + ".Get()"}
+	case "int", "int8", "uint8", "uint32", "float64":
+		// the value, and arithmetic whose result depends on the type the value really has (a constant that was not
+		// converted to the declared type divides and wraps differently)
+		return []string{name, name + "/2", name + "*3+100"}
 	}
 	return []string{name}
 }
@@ -111,7 +116,7 @@ func genFn(rt *rapid.T, idx int) Fn {
 		f.Params = append(f.Params, rx.Pick(rt, "ptype", paramTypes...))
 	}
 	if rx.Chance(rt, "variadic", 1, 4) {
-		f.Variadic = rx.Pick(rt, "vtype", "int", "string", "float64", "any")
+		f.Variadic = rx.Pick(rt, "vtype", "int", "string", "float64", "any", "uint8", "int8", "uint32", "float64")
 	}
 	nr := rx.Range(rt, "nresults", 0, 3)
 	for i := 0; i < nr; i++ {
@@ -190,6 +195,10 @@ func (f Fn) decl() string {
 		shows = append(shows, "len(rest)", "rest")
 	}
 	fmt.Fprintf(&sb, "\tfmt.Println(%s)\n", strings.Join(append([]string{fmt.Sprintf("%q", f.Name)}, shows...), ", "))
+	switch f.Variadic {
+	case "int", "int8", "uint8", "uint32", "float64":
+		fmt.Fprintf(&sb, "\tfor _, e := range rest {\n\t\tfmt.Println(\"e\", e/2, e*3+100)\n\t}\n")
+	}
 	if len(f.Results) > 0 {
 		fmt.Fprintf(&sb, "\treturn %s\n", strings.Join(f.RetExpr, ", "))
 	}
@@ -257,6 +266,9 @@ func genProg(rt *rapid.T) *Prog {
 	}
 	p.Depth = rx.Pick(rt, "depth", 1, 2, 10, 50, 100, 200, 400, 1000, 5000)
 	p.Locals = rx.Range(rt, "locals", 0, 7)
+	for i := rx.Range(rt, "nkeep", 0, 6); i > 0; i-- {
+		p.Keep = append(p.Keep, rx.Range(rt, "keepargs", 0, 5))
+	}
 	return p
 }
 
@@ -282,6 +294,12 @@ func spreadExpr(vt string) string {
 		return "vss..."
 	case "float64":
 		return "vfs..."
+	case "uint8":
+		return "vu8s..."
+	case "int8":
+		return "vi8s..."
+	case "uint32":
+		return "vu32s..."
 	}
 	return "vas..."
 }
@@ -305,6 +323,8 @@ func (p *Prog) Source() string {
 		fmt.Fprintf(&sb, "\tr += float64(l%d - n - %d)\n", i, i)
 	}
 	sb.WriteString("\treturn r\n}\n\n")
+	// callees that keep the slice their surplus arguments were packed into: every call packs into a slice of its own
+	sb.WriteString("var kept [][]int\n\nfunc keepI(xs ...int) []int {\n\treturn xs\n}\n\nfunc (t *T) KeepM(pre string, xs ...float64) []float64 {\n\treturn xs\n}\n\nfunc stash(xs ...int) {\n\tkept = append(kept, xs)\n}\n\n")
 	for _, f := range p.Fns {
 		sb.WriteString(f.decl())
 	}
@@ -312,6 +332,7 @@ func (p *Prog) Source() string {
 	sb.WriteString("\tvi, vi8, vu8, vu32, vf, vstr, vb := 5, int8(-3), uint8(250), uint32(3000000000), 2.5, \"str\", true\n")
 	sb.WriteString("\tvs, vss, vfs, vas := []int{10, 20, 30}, []string{\"x\", \"y\"}, []float64{0.5}, []any{1, \"two\"}\n")
 	sb.WriteString("\tvm := map[string]int{\"k\": 11}\n\tvt := &T{V: 4}\n\tvar vfn func(int) int = inc\n")
+	sb.WriteString("\tvu8s, vi8s, vu32s := []uint8{200, 7}, []int8{-100, 100}, []uint32{4000000000}\n\t_, _, _ = vu8s, vi8s, vu32s\n")
 	sb.WriteString("\t_, _, _, _, _, _, _ = vi, vi8, vu8, vu32, vf, vstr, vb\n\t_, _, _, _, _, _, _ = vs, vss, vfs, vas, vm, vt, vfn\n")
 	for ci, c := range p.Calls {
 		f := p.Fns[c.Fn]
@@ -387,6 +408,26 @@ func (p *Prog) Source() string {
 			fmt.Fprintf(&sb, "\t%s := fs%d[0](%s)\n", rnames[0], ci, al)
 			printResults()
 		}
+	}
+	var keptNames []string
+	for i, n := range p.Keep {
+		var args []string
+		for j := 0; j < n; j++ {
+			args = append(args, fmt.Sprint(i*10+j+1))
+		}
+		switch i % 3 {
+		case 0:
+			fmt.Fprintf(&sb, "\tk%d := keepI(%s)\n", i, strings.Join(args, ", "))
+			keptNames = append(keptNames, fmt.Sprintf("k%d", i))
+		case 1:
+			fmt.Fprintf(&sb, "\tk%d := vt.KeepM(%s)\n", i, strings.Join(append([]string{"\"p\""}, args...), ", "))
+			keptNames = append(keptNames, fmt.Sprintf("k%d", i))
+		default:
+			fmt.Fprintf(&sb, "\tstash(%s)\n", strings.Join(args, ", "))
+		}
+	}
+	if len(p.Keep) > 0 {
+		fmt.Fprintf(&sb, "\tfmt.Println(%s)\n", strings.Join(append([]string{"\"kept\"", "kept"}, keptNames...), ", "))
 	}
 	fmt.Fprintf(&sb, "\tfmt.Println(rec(%d, 0), even(%d), odd(%d))\n", p.Depth, p.Depth%2000, p.Depth%2000)
 	fmt.Fprintf(&sb, "\tfmt.Println(half(%d, 3, nil, 7))\n", p.Depth%1500)
